@@ -785,7 +785,10 @@ def read_grammar(repo):
     y = open(os.path.join(repo, "front", "parser.y")).read()
     parts = y.split("\n%%")
     decls, body = parts[0], parts[1]
-    destructors = re.findall(r"^%destructor\s*\{.*?\}\s*(\S+)", decls, re.M)
+    # one action may serve several symbols: `%destructor { if ($$) free($$); } TOK_ID TOK_NUM_STRING`
+    destructors = []
+    for syms in re.findall(r"^%destructor\s*\{.*\}[ \t]*([^{}\n]*)$", decls, re.M):
+        destructors += re.findall(r"<[^>]*>|'.'|[A-Za-z_][A-Za-z0-9_.]*", re.sub(r"/\*.*?\*/", " ", syms))
     m = re.search(r"^%start\s+(\w+)", decls, re.M)
     start = m.group(1) if m else None
     rules = []
